@@ -13,6 +13,10 @@ CHECKS = {
          "generated-input search + exhaustive small-scope enumeration of tampering: mutation of rPGP-built SEIPD containers (re-framed by an independent framer), oracle = stream must end in an error, zero bytes released in default SEIPDv1 mode, released bytes a prefix of the true plaintext for SEIPDv2; positive control on the unmodified container",
          "exploration; exhaustive over every single-bit flip and truncation offset of ~35 (thorough ~65) small messages (quick: every third byte position), sampled over bit flips, truncations, appends, AEAD chunk drop/dup/swap/rotate/truncation-attack/tag surgery, CFB block surgery, all header fields x all 256 values, x consumer patterns x SEIPDv1 read modes x opener (session key, password, recipient)",
          "assumes primitive forgery probabilities are unreachable; junk appended after an intact fixed-length container is only required not to yield wrong plaintext"),
+ "C05": ("DESIGN.md §4 C05",
+         "generated-input search with a differential/round-trip oracle: packet bodies generated field by field by an independent RFC 9580 encoder (every one-octet id from the listed values or 0..255, all length classes, canonical MPIs, all subpacket types incl. critical/unknown/embedded/long areas, every S2K usage and type), canonical framing; oracle on accepted values: byte-identical re-encoding, truthful write_len at body/packet/with-header level, header de-framed by an independent de-framer, parse(serialize(v)) == v; plus API-built and API-mutated objects",
+         "exploration: ~60k (thorough 1.5M) generated packets over all packet types and versions + 4k (60k) API objects (certificates of 17 zoo keys incl. locked forms, set_password_with_s2k/remove_password with Cfb/Aead x S2K kinds, Subpacket::regular over multi-byte strings, unhashed subpacket edits, detached signatures, re-framed literal packets, every packet of serialized certificates)",
+         "public-key material of the structured algorithms is harvested from zoo keys (fabricated points would be rejected by the parser); Trust packet content is ignored by rPGP by design and is excluded; inputs the parser rejects are counted, not judged"),
  "C06": ("DESIGN.md §4 C06",
          "generated-input search: exhaustive strings over {CR,LF,x} (length<=L) + random strings over the canonicalization alphabet, every sign interface crossed with every applicable verify interface (pairwise oracle: own signature must verify), prefixed messages assembled by an independent framer",
          "exploration: all 3-symbol strings up to length 6 (thorough 8) and random Sigma strings incl. buffer-edge placements; sign interfaces {detached binary/text, SignatureConfig::sign, hasher+Write chunks, builder 1..3 signers, cleartext sign/new/new_many} x verify interfaces {Signature::verify, DetachedSignature::verify, re-parsed binary/armored, Message::verify prefixed and one-pass, verify_nested, extracted one-pass signature as detached, cleartext verify/verify_many/after armor}; all zoo algorithms sampled",
